@@ -20,3 +20,4 @@ bin/rewrite -plain -src "${VERIF_REPO:-/repo}" -out "$SCR/race/reftable" -access
 echo "setup: race-detector binary builds"
 mkdir -p evidence out/replays
 echo "setup: done"
+"$V/bin/check" selftest --n 24 --fs 1500
